@@ -37,6 +37,20 @@ pub struct SymSpec {
     /// states on which this (permutation-invariant) predicate is false are outside the boundary
     #[serde(default)]
     pub boundary: Option<Pred>,
+    /// per property: 0 always, 1 sometimes, 2 eventually (empty: derived from the flag in `props`)
+    #[serde(default)]
+    pub kinds: Vec<u8>,
+    /// enable symmetry reduction through `symmetry_fn` instead of `symmetry()`
+    #[serde(default)]
+    pub via_symmetry_fn: bool,
+}
+impl SymSpec {
+    pub fn kind(&self, i: usize) -> u8 {
+        self.kinds.get(i).copied().unwrap_or(if self.props[i].0 { 0 } else { 1 })
+    }
+}
+fn rep_fn(s: &PState) -> PState {
+    s.representative()
 }
 
 #[derive(Clone, Debug, PartialEq, Eq, Hash, PartialOrd, Ord)]
@@ -110,7 +124,13 @@ impl Model for SymModel {
         Some(n)
     }
     fn properties(&self) -> Vec<Property<Self>> {
-        self.0.props.iter().enumerate().map(|(i, (always, _))| if *always { Property::always(QN[i], QS[i]) } else { Property::sometimes(QN[i], QS[i]) }).collect()
+        (0..self.0.props.len())
+            .map(|i| match self.0.kind(i) {
+                0 => Property::always(QN[i], QS[i]),
+                1 => Property::sometimes(QN[i], QS[i]),
+                _ => Property::eventually(QN[i], QS[i]),
+            })
+            .collect()
     }
 }
 
@@ -147,7 +167,17 @@ pub fn gen_sym(seed: u64) -> SymScenario {
     sched.block_size = *rng.pick(&[1usize, 2, 5, 0]);
     let extra_inits = if rng.chance(1, 2) { (0..rng.range(1, 2)).map(|_| (0..procs).map(|_| rng.below(locals as u64) as u8).collect()).collect() } else { vec![] };
     let boundary = if rng.chance(1, 2) { Some(Pred::CountAtMost(rng.below(locals as u64) as u8, rng.range(0, procs as u64) as u8)) } else { None };
-    SymScenario { spec: SymSpec { procs, locals, shared, table, props, init_local: 0, init_shared: 0, extra_inits, boundary }, threads: 1 + rng.usize_below(3), sched }
+    // some of the other properties become eventually-properties (any position in the list)
+    let mut kinds: Vec<u8> = props.iter().map(|p| if p.0 { 0 } else { 1 }).collect();
+    if rng.chance(1, 2) {
+        for (i, k) in kinds.iter_mut().enumerate() {
+            if i != keep && rng.chance(1, 2) {
+                *k = 2;
+            }
+        }
+    }
+    let via_symmetry_fn = rng.chance(1, 3);
+    SymScenario { spec: SymSpec { procs, locals, shared, table, props, init_local: 0, init_shared: 0, extra_inits, boundary, kinds, via_symmetry_fn }, threads: 1 + rng.usize_below(3), sched }
 }
 
 struct DfsObs {
@@ -175,7 +205,7 @@ fn run_checker(sc: &SymScenario, symmetry: bool, seed_salt: u64, simulation: boo
             s2.with(|l| l.push(s));
         });
         if symmetry {
-            b = b.symmetry();
+            b = if sc.spec.via_symmetry_fn { b.symmetry_fn(rep_fn) } else { b.symmetry() };
         }
         let ch: Box<dyn DynChecker> = if simulation {
             Box::new(b.target_state_count(150).spawn_simulation(sc.sched.seed, stateright::UniformChooser).join())
@@ -224,6 +254,56 @@ impl<C: Checker<SymModel>> DynChecker for C {
     }
     fn uniq(&self) -> usize {
         self.unique_state_count()
+    }
+}
+
+fn succs(model: &SymModel, s: &PState) -> Vec<PState> {
+    let mut acts = Vec::new();
+    model.actions(s, &mut acts);
+    acts.into_iter().filter_map(|a| model.next_state(s, a)).filter(|n| model.within_boundary(n)).collect()
+}
+
+/// Eventually-properties on symmetric process models: a reported counterexample must be a maximal
+/// never-satisfying path (C03), and one may only be reported when such a path exists at all (C11).
+fn check_eventually(sc: &SymScenario, model: &SymModel, reach: &BTreeSet<PState>, o: &DfsObs, label: &str, simulation: bool, v: &mut Vec<Violation>, c: &mut Counters) {
+    for i in 0..sc.spec.props.len() {
+        if sc.spec.kind(i) != 2 {
+            continue;
+        }
+        let Some(states) = o.discoveries.get(QN[i]) else { continue };
+        c.inc("symmetric_eventually_discoveries");
+        let pred = &sc.spec.props[i].1;
+        // greatest set X of never-satisfying states from which a maximal never-satisfying path exists
+        let mut x: BTreeSet<PState> = reach.iter().filter(|s| !holds(pred, s)).cloned().collect();
+        loop {
+            let drop: Vec<PState> = x
+                .iter()
+                .filter(|s| {
+                    let n = succs(model, s);
+                    !n.is_empty() && !n.iter().any(|t| x.contains(t))
+                })
+                .cloned()
+                .collect();
+            if drop.is_empty() {
+                break;
+            }
+            for d in drop {
+                x.remove(&d);
+            }
+        }
+        let genuine_exists = model.init_states().iter().any(|s| model.within_boundary(s) && x.contains(s));
+        if !genuine_exists {
+            v.push(Violation::new("C11", &format!("false-alarm:{}", label), format!("{} ({:?}) reported with path {:?} but every maximal in-boundary path satisfies it", QN[i], pred, states)));
+        }
+        if let Some(bad) = states.iter().find(|s| holds(pred, s)) {
+            v.push(Violation::new("C03", &format!("eventually-path-satisfied:{}", label), format!("{} ({:?}): the reported path {:?} contains {:?}, which satisfies the condition", QN[i], pred, states, bad)));
+        }
+        let last = states.last().unwrap();
+        let extendable = !succs(model, last).is_empty();
+        let closes_cycle = simulation && states[..states.len() - 1].iter().any(|e| e.representative() == last.representative());
+        if extendable && !closes_cycle {
+            v.push(Violation::new("C03", &format!("eventually-path-extendable:{}", label), format!("{} ({:?}): the reported path {:?} ends in a state with in-boundary successors and closes no cycle", QN[i], pred, states)));
+        }
     }
 }
 
@@ -290,11 +370,12 @@ pub fn execute(sc: &SymScenario) -> (Vec<Violation>, Counters, u64, u64, u64) {
             v.push(Violation::new("C10", "path:Simulation", format!("simulation with symmetry: {}", b)));
             v.push(Violation::new("C03", "path-not-executable:Simulation+symmetry", format!("simulation with symmetry: {}", b)));
         }
+        check_eventually(sc, &model, &reach, &so, "Simulation+symmetry", true, &mut v, &mut c);
         for (name, states) in &so.discoveries {
             let i = QN.iter().position(|n| n == name).unwrap();
             let (always, pred) = &sc.spec.props[i];
             let last = states.last().unwrap();
-            if *always == holds(pred, last) {
+            if sc.spec.kind(i) != 2 && *always == holds(pred, last) {
                 v.push(Violation::new("C10", "path:Simulation", format!("simulation with symmetry: the path for {} ends in {:?}, which is no witness", name, last)));
                 v.push(Violation::new("C03", "last-state-not-witness:Simulation+symmetry", format!("simulation with symmetry: the path for {} ends in {:?}, which is no witness", name, last)));
             }
@@ -310,12 +391,18 @@ pub fn execute(sc: &SymScenario) -> (Vec<Violation>, Counters, u64, u64, u64) {
             clock = c1 + c2;
             c.inc("symmetry_pairs_run");
             c.add("symmetry_states_saved", (p.unique as u64).saturating_sub(s.unique as u64));
-            let verdicts = |o: &DfsObs| -> BTreeSet<String> { o.discoveries.keys().cloned().collect() };
+            // eventually-verdicts are legitimately path-dependent (C11): only always/sometimes are compared
+            let verdicts = |o: &DfsObs| -> BTreeSet<String> { o.discoveries.keys().filter(|n| sc.spec.kind(QN.iter().position(|q| q == n).unwrap()) != 2).cloned().collect() };
+            check_eventually(sc, &model, &reach, &p, "Dfs", false, &mut v, &mut c);
+            check_eventually(sc, &model, &reach, &s, "Dfs+symmetry", false, &mut v, &mut c);
             if verdicts(&p) != verdicts(&s) {
                 v.push(Violation::new("C10", "verdict", format!("verdicts without symmetry {:?}, with symmetry {:?} ({} processes, {} threads)", verdicts(&p), verdicts(&s), sc.spec.procs, sc.threads)));
             }
             // also against the reference
             for (i, (always, pred)) in sc.spec.props.iter().enumerate() {
+                if sc.spec.kind(i) == 2 {
+                    continue;
+                }
                 let exists = if *always { reach.iter().any(|st| !holds(pred, st)) } else { reach.iter().any(|st| holds(pred, st)) };
                 if exists != s.discoveries.contains_key(QN[i]) {
                     v.push(Violation::new("C10", "verdict", format!("with symmetry {} ({:?}, always={}): witness exists = {}, reported = {}", QN[i], pred, always, exists, !exists)));
@@ -350,7 +437,7 @@ pub fn execute(sc: &SymScenario) -> (Vec<Violation>, Counters, u64, u64, u64) {
                 let i = QN.iter().position(|n| n == name).unwrap();
                 let (always, pred) = &sc.spec.props[i];
                 let last = states.last().unwrap();
-                if *always == holds(pred, last) {
+                if sc.spec.kind(i) != 2 && *always == holds(pred, last) {
                     v.push(Violation::new("C10", "path", format!("with symmetry: the path for {} ends in {:?}, which is no witness", name, last)));
                 }
             }
